@@ -16,7 +16,7 @@ ASSUMPTIONS = [
     'ramalhete_queue and nikolaev_queue: concurrent linearizability is explored (exact FIFO linearizability check of every explored history), not proved',
 ]
 
-PROPERTY_FILES = ['Properties_C04', 'Properties_C04_ram']
+PROPERTY_FILES = ['Properties_C04', 'Properties_C04_ram', 'Properties_C04_nikq']
 THEOREM_NOTES = {
     'scope': 'proved on step-level models tied by trace correspondence: michael_scott_queue (chain, FIFO conservation, pop value, emptiness point) and ramalhete_queue for every entries_per_node E >= 1 and pop_retries R (node chain, ticket ownership, entry life cycle null -> value -> taken, conservation g_pushed ~ g_popped ++ contents in EVERY reachable state, tickets handed out in global order without gaps, values leave in ticket order, the two emptiness exits with every filled ticket already claimed, destructor deletes exactly the filled tickets, solo termination bounds; hypothesis: no 32-bit ticket counter has wrapped); two natural but false formalisations are refuted with schedules replayed on the code (CAS order is not the leaving order; a pop may answer empty while a claimed, filled ticket exists - it is linearized after the claiming pop). nikolaev_queue, the real reclaimers, element kinds and small nodes are covered by the search with an exact FIFO linearizability oracle',
 }
@@ -75,6 +75,17 @@ def run(ctx):
             rcases.append(({'q': 'ram', 'elem': 'ptr', 'epn': str(epn), 'retries': str(ret)}, queue_program(rng, 2 + k % 2, 3 + k)))
     st2 = do_correspondence(ctx, 'ram', Hs['uq_gc'], rcases, 8 if thorough else 4, 'ramalhete')
     tie = tie or tie_broken_sig(st2, 'ram')
+    # ---- correspondence: nikolaev_queue model (Model/NikqDefs.v: linked nodes of two SCQ rings, finalization, hand-over, retire)
+    def nikq_model_program():
+        epn, ret = rng.choice([(1, 0), (1, 1), (2, 0), (2, 1), (4, 0), (4, 1)])
+        nth = rng.choice([2, 3, 3, 4])
+        nops = rng.choice([2, 3, 4, 5]) if nth < 4 else rng.choice([2, 3])
+        return ({'q': 'nik', 'elem': 'int', 'epn': str(epn), 'retries': str(ret)}, queue_program(rng, nth, nops, ('push',), ('pop', 'pop', 'tpop'), pushy=rng.choice([0.5, 0.6, 0.75])))
+    e1 = {'q': 'nik', 'elem': 'int', 'epn': '1', 'retries': '0'}
+    ncases = [(e1, [['push 1', 'pop', 'push 7', 'pop'], ['pop'], ['pop'], ['pop']]), (e1, [['pop', 'pop'], ['push 1', 'push 2'], ['pop']]),
+              (e1, [['push 1', 'pop', 'pop', 'pop', 'pop'], ['push 2'], ['push 3']])] + [nikq_model_program() for _ in range(8 if thorough else 4)]
+    st3 = do_correspondence(ctx, 'nikq', Hs['uq_gc'], ncases, 8 if thorough else 4, 'nikolaev')
+    tie = tie or tie_broken_sig(st3, 'nikq')
     # ---- search: all three queues, every built reclaimer, small nodes
     n = 2500 if thorough else 300
     for name, H in sorted(Hs.items()):
@@ -94,5 +105,12 @@ def run(ctx):
             jobs.append((cfg, [queue_program(rng, 1, 4 * epn + 6, pushy=0.6)[0]], 'opseq', 1, ctx['seed'], ()))
             jobs.append((cfg, [['push %d' % i for i in range(1, 2 * epn + 2)] + ['pop'] * (2 * epn + 2)], 'opseq', 1, ctx['seed'], ()))
             jobs.append((cfg, queue_program(rng, 2, 2 * epn), 'random', n // 2, ctx['seed'], ()))
+        # nikolaev_queue node hand-over with every index of the node in flight (entries_per_node 1): a pusher finalizes the node between a
+        # popper's tail load and its catchup CAS while a stale pusher still targets the node - the finalized bit must survive catchup
+        hcfg = {'q': 'nik', 'elem': 'int', 'epn': '1', 'retries': '0'}
+        hprog = [['push 1', 'push 3'], ['pop', 'pop'], ['push 4'], ['pop']]
+        jobs.append((hcfg, hprog, 'pct', 4000, ctx['seed'], ('--depth', '5')))
+        jobs.append((hcfg, hprog, 'random', 4000, ctx['seed'], ()))
+        jobs.append((hcfg, [['push 1', 'pop', 'push 3'], ['pop', 'push 4'], ['push 5', 'pop'], ['pop']], 'pct', 4000, ctx['seed'] + 1, ('--depth', '5')))
         fs = do_search(ctx, H, jobs, name, classify=lambda c, h, f, name=name: classify_threshold(c, h, f, name))
     return tie
